@@ -33,9 +33,9 @@ INFO = dict(
     technique="Lean 4 proof (general theorems by induction for graphs of every size; kernel-decided tables over the "
               "property's two exhaustive small domains kept as an independent cross-check) + the Python-level logic of "
               "menpo/shape/graph.py TRANSLATED from the source text of the working tree on every run "
-              "(harness/py2lean2.py + py2lean2w.py + trans_c14.py -> Generated/C14Src.lean: 40 definitions, among them the "
+              "(harness/py2lean2.py + py2lean2w.py + trans_c14.py -> Generated/C14Src.lean: 41 definitions, among them the "
               "nested recursive dfs of _has_cycles with fuel, two `while` loops with fuel and nine `for` loops) and "
-              "proved EQUAL to the Core definitions the theorems are about, for all arguments (GenProps/C14Src.lean, 41 "
+              "proved EQUAL to the Core definitions the theorems are about, for all arguments (GenProps/C14Src.lean, 42 "
               "obligations re-checked by lake on every run), the property theorems being restated about the translated "
               "definitions (GenProps/C14SrcProps.lean) + exhaustive/random model-implementation correspondence on the "
               "real classes",
@@ -44,7 +44,9 @@ INFO = dict(
                "parents/isolated/adjacency list/edge test consistent; masking = induced subgraph renumbered in order "
                "with points following, and a sequence of masks is one mask (mask_mask); PointTree.from_mask keeps "
                "exactly the masked-in vertices joined to the root through masked-in vertices, renumbered in order, "
-               "root re-indexed (treeFromMask_root_component); the recursive DFS cycle detector _has_cycles "
+               "root re-indexed WHENEVER it returns a result (treeFromMask_root_component is a soundness statement; that "
+               "a result is returned for every mask keeping the root and one more connected vertex is checked by the "
+               "correspondence, not proved); the recursive DFS cycle detector _has_cycles "
                "answers True iff there is a closed walk (directed) / a self-loop or simple cycle (undirected), by a DFS "
                "invariant over a fuel-free big-step semantics that the fuelled recursion provably realises, and equals "
                "the closed-walk / cyclomatic-number references on every graph; is_tree = non-empty, connected, acyclic "
@@ -52,7 +54,9 @@ INFO = dict(
                "constructor accepts exactly the arborescences on >= 2 vertices (BFS-tree comparison as coded), and in "
                "every accepted tree parent/children/depth/leaves/levels are total and mutually consistent; "
                "find_all_paths = exactly the simple routes; Bellman-Ford reference distances sound and optimal; the "
-               "reconstructed shortest route weighs d(start,end) under scipy's predecessor contract; the Kruskal "
+               "reconstructed shortest route weighs scipy's d(start,end) under scipy's predecessor contract (hypothesis "
+               "PredContract; the harness checks an executable version of it, contractOk in the driver, and d = the model's "
+               "Bellman-Ford distances on every case - that executable check is not proved to imply PredContract); the Kruskal "
                "reference returns a minimum spanning forest (forest, spanning, n - #components edges, minimal against "
                "every spanning edge set) and, for pairwise different weights, THE minimum spanning forest "
                "(minimum_spanning_forest_unique: every spanning forest that weighs no more consists of the same edges); "
@@ -66,7 +70,9 @@ INFO = dict(
                "_has_cycles INCLUDING ITS INNER RECURSIVE dfs (state passing, fuel), has_cycles, is_tree, find_all_paths "
                "(recursive, fuel) and n_paths, Tree.is_leaf / leaves / n_leaves / parent, depth_of_vertex (while loop), "
                "vertices_at_depth, n_vertices_at_depth, Graph.__init__ / UndirectedGraph.__init__ / "
-               "DirectedGraph.__init__ / Tree.__init__ (checks and object state), _mask_adjacency_matrix_and_points, "
+               "DirectedGraph.__init__ / Tree.__init__ (the ORDER and plumbing of their checks, eliminate_zeros, the object "
+               "state, the symmetry test _is_symmetric; the Point* constructors are vocabulary, see "
+               "partial_clauses), _mask_adjacency_matrix_and_points, "
                "PointUndirectedGraph / PointDirectedGraph / PointTree.from_mask (the latter with its while loop over "
                "scipy's component labels), _convert_edges_to_adjacency_matrix and "
                "_convert_edges_to_symmetric_adjacency_matrix.  The kernel-decided tables over ALL 1+2+8+64+1024 "
@@ -81,7 +87,11 @@ INFO = dict(
                "harness/trans_c14.py + Core/C14Src.lean (which numpy / scipy.sparse expression of graph.py stands for "
                "which model operation: A[i, :].nonzero()[1] = row, A.nonzero() = the row-major listing of the stored "
                "non-zeros, sets as lists, dicts as association lists, A[keep, :][:, keep] = select, labels of "
-               "connected_components = smallest vertex of the component); scipy.sparse.csgraph (shortest_path, "
+               "connected_components = smallest vertex of the component; "
+               "PointUndirectedGraph / PointDirectedGraph / PointTree(points, A, ..) = pointGraphCtor / pointTreeCtor "
+               "(hand-written: _check_n_points, then the Graph / Tree constructor), self.copy() = the same value, .copy() / "
+               "copy= flags / csr_matrix(x) = identity: the translation is VALUE-level and does not see copying, aliasing or "
+               "in-place vs rebinding); scipy.sparse.csgraph (shortest_path, "
                "breadth/depth_first_order, breadth_first_tree, connected_components, minimum_spanning_tree) as contract "
                "parameters whose outputs are validated against the model's reference algorithms (proved correct: "
                "Bellman-Ford, Kruskal, reachability closure, BFS tree) on every case; scipy.sparse indexing.",
@@ -95,6 +105,32 @@ INFO = dict(
              "shortest paths and spanning trees of graphs with NEGATIVE weights are judged by the python oracle alone "
              "(Bellman-Ford / Prim): the model's reference distances and Kruskal weights are natural numbers; all "
              "structural operations are compared with the model on the signed weights",
+             "the translated obligations are value-level: that queries / from_mask / minimum_spanning_tree do not change "
+             "the receiver and that copies answer alike is decided by the oracle's before/after snapshots of the state the "
+             "property names (adjacency entries, points, root, predecessor list), not by the obligations",
+             "menpo code that is VOCABULARY, not translated (a change there does not alter the generated text): "
+             "_check_n_points, PointGraph.__init__ / Point*Graph.__init__ / PointTree.__init__ (their super() "
+             "chains), every init_from_edges classmethod (which converter feeds which constructor), self.copy(); they are "
+             "covered by the correspondence and by the oracle cases `malformed:*` (asymmetric matrix for an undirected "
+             "graph, wrong number of points) and from_edges",
+             "with skip_checks=True the `...Api` definitions and the obligations model vertices 0..n-1 only (vertices are "
+             "naturals; entries outside the matrix read 0): Python raises IndexError for v >= n and wraps negative "
+             "vertices; the harness passes skip_checks=True for inside vertices only",
+             "treeFromMask_root_component / translated_tree_from_mask are soundness statements (under `= ok`); totality "
+             "of PointTree.from_mask on accepted trees is checked by the `tmask` correspondence (every mask of every "
+             "arborescence of the small domain), not proved; the conjunct 'it passed the Tree constructor' is definitional",
+             "shortest_route_weight_is_distance assumes PredContract; the run-time check of scipy's arrays (contractOk, "
+             "in the driver, v < n only; d compared with the model's Bellman-Ford distances; skipped for negative weights) "
+             "is executable glue without a lemma contractOk -> PredContract",
+             "self-loops: every graph / digraph on <= 3 vertices with loops is always run, on 4 vertices a seeded sample "
+             "(2^16 digraphs); the kernel tables and the loop-free domains are complete",
+             "the constructor's symmetry test on SIGNED weights (w_ij = -w_ji) is not modelled: graphInit is over natural "
+             "entries and the structural operations run on |w|; the harness builds symmetric undirected graphs (and the "
+             "`malformed:asymmetric` cases with positive weights)",
+             "oracle demands taken from the docstrings rather than the property text are NOT failures any more: the kind "
+             "of exception refusing a vertex outside 0..n-1 or an all-False mask, the class of from_mask's result, copy "
+             "sharing, the ascending order of leaves / vertices_at_depth are compared with the model (mismatch -> "
+             "directed search) or counted as `note:*`",
              "not translated from the source (transcribed, tied by the correspondence): find_path / "
              "find_shortest_path (the walk back along scipy's predecessor array), minimum_spanning_tree, "
              "maximum_depth (np.max), relative_location_edge / relative_locations, the predefined graphs; "
@@ -103,6 +139,7 @@ INFO = dict(
     assumptions=["edge weights are integers of any sign (exact in float64) for the plain queries, masks, paths, "
                  "spanning trees and trees; shortest paths with negative weights only on directed acyclic graphs with "
                  "Bellman-Ford / Johnson",
+                 "vertices are natural numbers in the model; with skip_checks=True only vertices inside 0..n-1 are modelled",
                  "a single-vertex Tree is outside menpo's Tree domain by design ('a tree cannot have isolated "
                  "vertices'); minimum spanning trees are only defined for connected graphs",
                  "Python's recursion limit is not modelled (the recursive detector is run on graphs of up to 40 "
@@ -146,7 +183,7 @@ GEN_THEOREMS = [_G + t for t in [
     "genNNeighbours_eq", "genNChildren_eq", "genNParents_eq", "genEdgesD_eq", "genEdgesU_eq", "genEdges_eq", "genNEdges_eq",
     "genIsolated_eq", "genIsolatedVertices_eq", "genHasIsolatedVertices_eq", "genGetAdjacencyList_eq",
     "genGetPredecessorsList_eq", "genDfs_eq", "genHasCycles_eq", "genHasCyclesM_eq", "genIsTree_eq", "genFindAllPaths_eq",
-    "genNPaths_eq", "genIsLeaf_eq", "genLeaves_eq", "genNLeaves_eq", "genParent_eq", "genGraphInit_eq",
+    "genNPaths_eq", "genIsLeaf_eq", "genLeaves_eq", "genNLeaves_eq", "genParent_eq", "genIsSymmetric_eq", "genGraphInit_eq",
     "genUndirectedGraphInit_eq", "genDirectedGraphInit_eq", "genTreeInit_eq", "genDepthOfVertex_eq",
     "genVerticesAtDepth_eq", "genNVerticesAtDepth_eq", "genConvertEdges_eq", "genConvertEdgesSym_eq", "genMask_eq",
     "genFromMaskD_eq", "genFromMaskU_eq", "genFromMaskT_eq",
@@ -405,10 +442,11 @@ REFUSED_REPS = ("csc", "coo", "lil", "csr_array")
 # has_cycles, find_all_paths) indeed reads a stored zero as a non-edge - but scipy.sparse.csgraph reads it as an edge of
 # weight zero, so is_tree (connected_components), find_path, find_shortest_path and minimum_spanning_tree walk through
 # it (candidate defect, proposed repair notes/fixes/C14-explicit-zeros.diff: eliminate_zeros() in Graph.__init__).
-# While the constructor keeps stored zeros, the csgraph-backed queries are left out for such matrices (counted as
-# 'explicit-zeros:csgraph-queries-left-out'); as soon as the constructor drops them (or with this switch on) they
-# are checked like on any other graph.
-STORED_ZEROS_STRICT = False
+# That defect is FIXED in /repo (1f69a57: eliminate_zeros() in Graph.__init__; `fixed:` line in known_findings.txt), so
+# the csgraph-backed queries are judged on such matrices like on any other graph, whatever the constructor does: if the
+# fix is reverted the violation is reported again (DESIGN section 4).  (With the switch off the oracle would adapt to the
+# implementation: the queries were left out whenever the constructor kept the zeros.)
+STORED_ZEROS_STRICT = True
 
 
 def zeros_dropped(obj):
@@ -643,8 +681,12 @@ def battery(ctx, obj, g, rp, rng=None, full=True, site="C14/queries", trees=True
     ctx.check(iso == exp_iso and obj.has_isolated_vertices() == bool(exp_iso), site, "isolated",
               "isolated %r expected %r" % (iso, exp_iso), rp)
     for bad in (-1, n):
-        st2, _ = guarded(obj.is_edge, 0, bad)
-        ctx.check(st2 == "err", site, "vertex-check", "is_edge(0,%d) did not raise ValueError" % bad, rp)
+        st2, val2 = guarded(obj.is_edge, 0, bad)
+        # the property text asks for edge tests consistent with the edge set: an ANSWER about a vertex that does not exist
+        # is a failure; which exception refuses it (the docstring says ValueError) is only noted
+        ctx.check(st2 != "ok", site, "vertex-check", "is_edge(0,%d) answered %r for a vertex that does not exist" % (bad, val2), rp)
+        if st2 == "exc":
+            ctx.count("note:vertex-outside-range-refused-with-" + str(val2))
     # cycle / tree tests
     cyc = bool(obj.has_cycles())
     rc = ref_cycle(g)
@@ -715,9 +757,14 @@ def check_entry_points(ctx, b, obj, g, rp, rng, root=None, site="C14/entry-point
             for name, f in calls:
                 st, val = guarded(f)
                 obs[name] = val if st == "ok" else ("X" if st == "err" else "EXC:" + str(val))
-                ctx.check((st == "ok") == inside and st != "exc", site, "vertex-guard:" + name,
+                # judged: an existing vertex gets an answer, a vertex that does not exist gets none.  WHICH exception
+                # refuses it (ValueError by the docstrings) is not in the property text: a different kind shows up as a
+                # model / implementation mismatch of the `api` line below ('X' vs 'EXC:...'), not as an oracle failure
+                ctx.check((st == "ok") == inside, site, "vertex-guard:" + name,
                           "%s at vertex %d of %d vertices (skip_checks=%r): %s" % (name, v, n, skip, "returned" if st == "ok" else val),
                           dict(rp, vertex=v, skip_checks=skip, method=name))
+                if st == "exc":
+                    ctx.count("note:vertex-outside-range-refused-with-" + str(val))
             if inside:
                 exp = {"ie": (u, v) in g.w, "ie2": (v, u) in g.w, "row": sorted(g.out[v]), "nch": len(g.out[v])}
                 if g.directed:
@@ -858,14 +905,19 @@ def check_mask(ctx, b, g, obj, mask, rng=None, deep=False, trees=True):
     eg, keep = g.masked(mask)
     if not keep:
         ctx.count("mask:all-false")
-        ctx.check(st == "err", site, "empty-mask-accepted", "an all-False mask did not raise ValueError (%s)" % st, rp)
-        impl = "err empty"
+        # nothing survives: menpo refuses (ValueError, a graph needs a vertex); the property text only asks for the
+        # induced subgraph, so an answer is a failure only if it is not the empty graph; the refusal itself is compared
+        # with the model ('err empty')
+        ctx.check(st != "ok" or h.n_vertices == 0, site, "empty-mask-accepted",
+                  "an all-False mask returned a graph with %s vertices" % (getattr(h, "n_vertices", "?"),), rp)
+        impl = "err empty" if st != "ok" else "ok n=0"
     else:
         ctx.count("mask:kept=%d/%d" % (len(keep), g.n) if g.n <= 5 else "mask:random")
         if st != "ok":
             ctx.fail(site, "raises:" + str(h), "from_mask raised %s" % h, rp)
             return
-        ctx.check(type(h) is type(obj), site, "class", "from_mask returned %s" % type(h).__name__, rp)
+        if type(h) is not type(obj):     # (not in the property text: noted, not judged)
+            ctx.count("note:from_mask-returned-" + type(h).__name__ + "-for-" + type(obj).__name__)
         dense = np.asarray(h.adjacency_matrix.todense()).astype(int)
         ok = h.n_vertices == len(keep) and all(dense[i, j] == eg.w.get((i, j), 0)
                                                 for i in range(len(keep)) for j in range(len(keep)))
@@ -931,7 +983,7 @@ def check_paths(ctx, b, g, obj, s, t, all_paths=True):
             ctx.fail("C14/find_all_paths", "raises:" + str(ps), "find_all_paths(%d,%d) raised %s" % (s, t, ps), rp)
         else:
             got = [tuple(ints(p)) for p in ps]
-            ctx.check(sorted(got) == sorted(ref) and (s > t or obj.n_paths(s, t) == len(ref)), "C14/find_all_paths", "not-all-simple-paths",
+            ctx.check(sorted(got) == sorted(ref) and ((g.n > 8 and s > t) or obj.n_paths(s, t) == len(ref)), "C14/find_all_paths", "not-all-simple-paths",
                       "find_all_paths(%d,%d) = %r, simple paths are %r" % (s, t, got, ref), dict(rp, call="g.find_all_paths(%d, %d)" % (s, t)))
             b.add("paths", "%s %d %d" % (g.wire(), s, t), "ok " + ("|".join(fl(p) for p in got)), rp)
             ctx.count("n_paths:%s" % (len(ref) if len(ref) < 4 else "4+"))
@@ -1048,6 +1100,19 @@ def tree_relations(ctx, t, g, r, rp, site="C14/tree-relations", exp=True):
         if exp:
             ctx.check(int(t.root_vertex) == r and t.n_vertices == n, site, "root", "root_vertex = %r, n_vertices = %r" % (t.root_vertex, t.n_vertices), rp)
         for v in range(n):
+            # depth_of_vertex follows predecessors_list until it meets the root: on a predecessor CYCLE it never returns.
+            # The walk is done here first, bounded by n steps, on the object's own list: a cycle is an oracle failure
+            # (with the vertex), and the call that would hang is not made.
+            x, steps = v, 0
+            while x is not None and x != t.root_vertex and steps <= n and 0 <= x < len(pred):
+                x, steps = pred[x], steps + 1
+            if steps > n:
+                ok = False
+                depth.append(None)
+                ctx.fail(site, "depth-does-not-terminate",
+                         "predecessors_list %r has a cycle that does not contain the root %r: depth_of_vertex(%d) would never "
+                         "return" % (pred, t.root_vertex, v), dict(rp, vertex=v))
+                continue
             sd, dv = guarded(t.depth_of_vertex, v)
             depth.append(int(dv) if sd == "ok" else None)
             if not exp:
@@ -1069,10 +1134,12 @@ def tree_relations(ctx, t, g, r, rp, site="C14/tree-relations", exp=True):
             ctx.check(bool(t.is_leaf(v)) == (len(ch) == 0), site, "leaf", "is_leaf(%d) inconsistent with children" % v, dict(rp, vertex=v))
         leaves = ints(t.leaves)
         if exp:
-            ctx.check(leaves == [v for v in range(n) if not g.out[v]] and t.n_leaves == len(leaves), site, "leaves", "leaves = %r" % leaves, rp)
+            # (the order of `leaves` / `vertices_at_depth` is not in the property text: sets are judged, the ascending
+            # order the code produces is compared with the model)
+            ctx.check(sorted(leaves) == [v for v in range(n) if not g.out[v]] and t.n_leaves == len(leaves), site, "leaves", "leaves = %r" % leaves, rp)
             if all(x is not None for x in depth):
                 ctx.check(int(t.maximum_depth) == max(depth) and
-                          all(ints(t.vertices_at_depth(k)) == [v for v in range(n) if depth[v] == k] and
+                          all(sorted(ints(t.vertices_at_depth(k))) == [v for v in range(n) if depth[v] == k] and
                               t.n_vertices_at_depth(k) == depth.count(k) for k in range(max(depth) + 2)),
                           site, "depth-levels", "maximum_depth / vertices_at_depth inconsistent with depth_of_vertex", rp)
     except Exception as e:
@@ -1153,6 +1220,8 @@ def check_tree_ctor(ctx, b, g, r, point, via, rng=None):
             b.add("tree", "%s %d" % (g.wire(), r), lambda reply: None if reply.startswith("err") else
                   "model accepts the tree, implementation refuses", rp)
         return None
+    if not ok:
+        return t if exp else None    # wrongly accepted: reported above; its queries are not asked (they need not terminate)
     # relations of an accepted tree
     before = snap(t)
     rok, pred, depth, leaves = tree_relations(ctx, t, g, r, rp, exp=exp)
@@ -1205,6 +1274,9 @@ def check_tree_mask(ctx, b, g, r, tree, mask, rng=None, deep=False, life=None):
         # only the root survives: menpo's Tree refuses single-vertex trees by design
         ctx.count("tree-mask:only-root-survives(%s)" % st)
         ctx.check(st != "exc", site, "raises:" + str(h), "from_mask raised %s" % h, rp)
+        if st == "ok":    # should a one-vertex tree ever be returned, it has to be the root alone
+            ctx.check(h.n_vertices == 1 and h.n_edges == 0 and int(h.root_vertex) == 0, site, "only-root-survives",
+                      "only the root survives the mask, the result has %d vertices and %d edges" % (h.n_vertices, h.n_edges), rp)
         return None
     ctx.count("tree-mask:kept=%d/%d" % (len(keep), g.n) if g.n <= 5 else "tree-mask:random")
     if st != "ok":
@@ -1264,6 +1336,11 @@ def check_mst(ctx, b, g, obj, r, point, deep=True):
         return
     dense = np.asarray(t.adjacency_matrix.todense())
     es = [(i, j) for i in range(g.n) for j in range(g.n) if dense[i, j] != 0]
+    if not np.all(np.isfinite(dense)):
+        # (scipy's MST through a zero-weight / stored-zero edge yields inf entries: an oracle failure, not a harness crash)
+        ctx.fail(site, "non-finite-weight", "the spanning tree carries a non-finite weight: %r" % [
+            (i, j, float(dense[i, j])) for i, j in es if not np.isfinite(dense[i, j])][:4], rp)
+        return
     tg = G("D", g.n, {(i, j): int(dense[i, j]) for i, j in es})
     ctx.check(all((i, j) in g.w and dense[i, j] == g.w[(i, j)] for i, j in es), site, "edge-not-in-graph",
               "the tree has an edge or weight the graph does not have: %r" % es, rp)
@@ -1449,8 +1526,10 @@ def check_history(ctx, b, rng, g, variant, point, root=None, pair=None):
             ctx.fail(site, "raises:" + str(C), "copy() raised %s" % C, rp0)
         else:
             ctx.count("history:copy")
-            ctx.check(type(C) is type(A) and snap(C) == base and C.adjacency_matrix is not A.adjacency_matrix, site, "copy",
-                      "copy() is not an independent equal graph", rp0)
+            # (copy independence / class identity are property C06's: here only that the copy answers like the original)
+            ctx.check(snap(C) == base, site, "copy", "copy() is not an equal graph", rp0)
+            if type(C) is not type(A) or C.adjacency_matrix is A.adjacency_matrix:
+                ctx.count("note:copy-shares-matrix-or-changes-class")
             del done[:]
             done.append("g = g.copy()")
             for i in order3[::2] + order[1::2][:len(qs) // 2]:
@@ -1751,6 +1830,25 @@ def with_loops(ctx, b, rng):
         ctx.count("loops-domain")
         safely(ctx, check_basic, b, g, ("dense", "csr")[k % 2] + ":" + DTYPES[(k // 2) % len(DTYPES)], bool(k % 2), rng,
                full=not ctx.quick())
+    # 4 vertices WITH self-loops (the property's "every directed graph on up to 4 vertices"): 2^16 digraphs / 2^10 graphs
+    # are too many to run each time: a seeded sample (quick 120 + 40, thorough 2500 + all 960 undirected)
+    dps = [(i, j) for i in range(4) for j in range(4)]
+    ups = [(i, j) for i in range(4) for j in range(i, 4)]
+    for k in range(ctx.n(120, 2500)):
+        code = rng.randrange(2 ** 16)
+        es = [p for i, p in enumerate(dps) if code >> i & 1]
+        if not any(a == c for a, c in es):
+            es.append((rng.randrange(4),) * 2)
+        ctx.count("loops-domain:4-vertices-sampled")
+        safely(ctx, check_basic, b, G.directed_(4, es), ("dense", "csr")[k % 2] + ":" + DTYPES[(k // 2) % len(DTYPES)], bool(k % 2), rng,
+               full=not ctx.quick())
+    codes = rng.sample(range(2 ** 10), 40) if ctx.quick() else range(2 ** 10)
+    for k, code in enumerate(codes):
+        es = [p for i, p in enumerate(ups) if code >> i & 1]
+        if any(a == c for a, c in es):
+            ctx.count("loops-domain:4-vertices-sampled")
+            safely(ctx, check_basic, b, G.undirected(4, es), ("dense", "csr")[k % 2] + ":" + DTYPES[(k // 2) % len(DTYPES)], bool(k % 2), rng,
+                   full=not ctx.quick())
 
 
 def edge_lists_with_isolated_ends(ctx, b, rng):
@@ -1783,6 +1881,55 @@ def refused_representations(ctx, b, rng):
     for k, rep in enumerate(REFUSED_REPS):
         g = random_graph(rng, nmax=8, weighted=bool(k % 2))
         safely(ctx, check_basic, b, g, rep + ":" + rng.choice([d for d in DTYPES if dtype_ok(g, d)]), bool(rng.random() < 0.5), rng)
+
+
+def malformed_constructions(ctx, rng):
+    """inputs the constructors have to refuse (or repair): an ASYMMETRIC matrix for an undirected graph (the state the
+    property names: 'adjacency symmetric for undirected'), a number of points different from the number of vertices.
+    Judged: never an accepted object whose adjacency is asymmetric / whose points do not match its vertices."""
+    from menpo import shape as ms
+    import scipy.sparse as sp
+    for k in range(ctx.n(6, 40)):
+        g = random_graph(rng, nmax=7, weighted=bool(k % 2), kind="U")
+        if not g.w:
+            continue
+        a = g.dense()
+        (i, j) = rng.choice(sorted(g.w))
+        if i == j:
+            continue
+        if k % 3 == 0:
+            a[j, i] = 0                     # one orientation missing
+        else:
+            a[j, i] = a[i, j] + 1           # both orientations, different weights
+        arg = sp.csr_matrix(a) if k % 2 else a
+        point = bool(k % 4 < 2)
+        rp = {"construct": "A = np.array(%r); g = %s(%sA)" % (a.tolist(), "PointUndirectedGraph" if point else "UndirectedGraph",
+                                                              "P, " if point else ""), "variant": "csr" if k % 2 else "dense"}
+        ctx.case(("asym", g.key(), i, j, k % 3, point), sample={"op": "UndirectedGraph(asymmetric matrix)", "matrix": a.tolist()})
+        st, obj = guarded((lambda: ms.PointUndirectedGraph(points_for(g.n), arg)) if point else (lambda: ms.UndirectedGraph(arg)))
+        ctx.count("malformed:asymmetric:" + (st if st != "exc" else "exc:" + str(obj)))
+        if st == "ok":
+            A = obj.adjacency_matrix
+            ctx.check((A != A.T).nnz == 0, "C14/construct", "asymmetric-undirected-accepted",
+                      "an undirected graph was built from an asymmetric matrix and its adjacency is asymmetric", rp)
+    for k in range(ctx.n(6, 30)):
+        tree = k % 3 == 2
+        g, root = random_tree(rng, nmax=7) if tree else (random_graph(rng, nmax=7, kind="UD"[k % 2]), 0)
+        if not g.w:
+            continue
+        extra = rng.choice([-1, 1, 2])
+        if g.n + extra < 1:
+            extra = 1
+        pts = points_for(g.n + extra)
+        cls = ms.PointTree if tree else graph_class(g, True)
+        rp = {"construct": "%s(points with %d rows, adjacency on %d vertices)" % (cls.__name__, g.n + extra, g.n),
+              "kind": g.kind, "n": g.n, "entries": [[i, j, x] for (i, j), x in sorted(g.w.items())]}
+        ctx.case(("npoints", g.key(), extra, tree), sample={"op": cls.__name__ + " with a wrong number of points", "n": g.n, "points": g.n + extra})
+        st, obj = guarded((lambda: cls(pts, g.dense(), root)) if tree else (lambda: cls(pts, g.dense())))
+        ctx.count("malformed:n_points:" + (st if st != "exc" else "exc:" + str(obj)))
+        if st == "ok":
+            ctx.check(obj.n_points == obj.n_vertices, "C14/construct", "points-vertices-mismatch-accepted",
+                      "%s accepted %d points for %d vertices" % (cls.__name__, obj.n_points, obj.n_vertices), rp)
 
 
 def randoms(ctx, b, rng, count, flush=False):
@@ -2055,6 +2202,7 @@ def run(ctx):
     check_predefined(ctx, rng)
     edge_lists_with_isolated_ends(ctx, b, rng)
     refused_representations(ctx, b, rng)
+    malformed_constructions(ctx, rng)
     exhaustive(ctx, b, rng)
     with_loops(ctx, b, rng)
     randoms(ctx, b, rng, ctx.n(320, 3200), flush=True)
